@@ -471,15 +471,37 @@ impl SubCheck for Resolve {
 
 // ---------------------------------------------------------------------------------------------
 /// a zone with one offset change, so that local times can be skipped or repeated
-#[derive(Clone, Copy, Debug)]
+#[derive(Clone, Copy, Debug, PartialEq, Eq)]
 pub struct OneStep {
     pub t: i64,
     pub a: i32,
     pub b: i32,
 }
+/// the offset in force at one instant of a `OneStep` zone; it remembers its zone, as the offsets of
+/// real variable zones do, so that arithmetic on a `DateTime<OneStep>` stays in the zone
+#[derive(Clone, Copy, Debug, PartialEq, Eq)]
+pub struct StepOffset {
+    pub zone: OneStep,
+    pub secs: i32,
+}
+impl StepOffset {
+    pub fn local_minus_utc(&self) -> i32 {
+        self.secs
+    }
+}
+impl chrono::Offset for StepOffset {
+    fn fix(&self) -> FixedOffset {
+        FixedOffset::east_opt(self.secs).unwrap()
+    }
+}
+impl std::fmt::Display for StepOffset {
+    fn fmt(&self, f: &mut std::fmt::Formatter) -> std::fmt::Result {
+        write!(f, "{}", chrono::Offset::fix(self))
+    }
+}
 impl OneStep {
-    fn off(self, o: i32) -> FixedOffset {
-        FixedOffset::east_opt(o).unwrap()
+    fn off(self, o: i32) -> StepOffset {
+        StepOffset { zone: self, secs: o }
     }
     /// (instant, offset) of every occurrence of the wall-clock second `w`, earliest first
     pub fn preimage(self, w: i64) -> Vec<(i64, i32)> {
@@ -491,14 +513,14 @@ impl OneStep {
     }
 }
 impl chrono::TimeZone for OneStep {
-    type Offset = FixedOffset;
-    fn from_offset(_: &FixedOffset) -> Self {
-        OneStep { t: 0, a: 0, b: 0 }
+    type Offset = StepOffset;
+    fn from_offset(o: &StepOffset) -> Self {
+        o.zone
     }
-    fn offset_from_local_date(&self, local: &NaiveDate) -> chrono::MappedLocalTime<FixedOffset> {
+    fn offset_from_local_date(&self, local: &NaiveDate) -> chrono::MappedLocalTime<StepOffset> {
         self.offset_from_local_datetime(&local.and_time(NaiveTime::MIN))
     }
-    fn offset_from_local_datetime(&self, local: &NaiveDateTime) -> chrono::MappedLocalTime<FixedOffset> {
+    fn offset_from_local_datetime(&self, local: &NaiveDateTime) -> chrono::MappedLocalTime<StepOffset> {
         let w = local.and_utc().timestamp();
         let c = self.preimage(w);
         match c.len() {
@@ -507,10 +529,10 @@ impl chrono::TimeZone for OneStep {
             _ => chrono::MappedLocalTime::Ambiguous(self.off(c[0].1), self.off(c[1].1)),
         }
     }
-    fn offset_from_utc_date(&self, utc: &NaiveDate) -> FixedOffset {
+    fn offset_from_utc_date(&self, utc: &NaiveDate) -> StepOffset {
         self.offset_from_utc_datetime(&utc.and_time(NaiveTime::MIN))
     }
-    fn offset_from_utc_datetime(&self, utc: &NaiveDateTime) -> FixedOffset {
+    fn offset_from_utc_datetime(&self, utc: &NaiveDateTime) -> StepOffset {
         self.off(if utc.and_utc().timestamp() >= self.t { self.b } else { self.a })
     }
 }
@@ -546,7 +568,7 @@ impl SubCheck for VarZone {
             1 => (gen::offset_secs(), gen::offset_secs()).prop_filter("no change", |(a, b)| a != b),
         ];
         Some(
-            (t, offs, prop_oneof![5 => 0u8..=1, 1 => Just(2u8)], -4i64..=4, any::<u16>(), proptest::option::of(0u32..1_000_000_000), 0u8..4, 0u8..4, prop::bool::weighted(0.8))
+            (t, offs, prop_oneof![5 => 0u8..=1, 1 => Just(2u8)], -4i64..=4, any::<u16>(), proptest::option::of(0u32..1_000_000_000), 0u8..5, 0u8..4, prop::bool::weighted(0.8))
                 .prop_map(|(t, (a, b), place, d, r, nano, off_choice, ts_choice, civil)| {
                     let (lo, hi) = (a.min(b) as i64, a.max(b) as i64);
                     // place 0: at the ends of the interval [t + lo, t + hi); 1: inside it; 2: far away
@@ -586,7 +608,9 @@ impl SubCheck for VarZone {
             0 => None,
             1 => Some(c.a),
             2 => Some(c.b),
-            _ => Some(c.a.max(c.b) + 900),
+            3 => Some(c.a.max(c.b) + 900),
+            // the zone's offset cut to whole minutes (another offset unless it has no seconds)
+            _ => { let o = occ.first().map(|x| x.1).unwrap_or(c.a); Some(o / 60 * 60) }
         };
         if let Some(o) = off_field { set(p.set_offset(o as i64))?; }
         let ts_field: Option<i64> = match (c.ts_choice, pick) {
